@@ -34,7 +34,9 @@
 (*   stuck {n}                   end of run: n calls never returned             *)
 (*                                                                            *)
 (* Driver discipline the monitor relies on (see the harness): one caller op   *)
-(* at a time; the clock is stepped only while no caller op is in flight and   *)
+(* at a time, except that a Remove and a Stop may be issued together (both in  *)
+(* flight; ops counts the calls in flight).  The clock is stepped only while   *)
+(* no caller op is in flight and                                               *)
 (* no timer expiry is waiting to be picked up by the scheduler (a scheduler   *)
 (* that is late by its own latency is not what this property is about).  A    *)
 (* caller op MAY be issued while an expiry is pending: that is the race, and  *)
@@ -57,7 +59,7 @@ CInitC(loc, chain) ==
               [bad |-> FALSE, why |-> "", loc |-> loc, chain |-> chain, now |-> 0,
                run |-> "no",            \* "no" | "yes" | "stopping" (a Stop call is in flight)
                ents |-> << >>,          \* id -> entry record
-               op |-> "none", snap |-> << >>, fresh |-> FALSE,
+               ops |-> 0, snap |-> << >>, fresh |-> FALSE,
                jobs |-> << >>,          \* job instances decided and not yet returned: [id, st, ep]
                stops |-> 0,             \* number of Stop calls that have returned
                stopcalls |-> 0,         \* number of Stop calls made
@@ -76,17 +78,17 @@ CSchedCall(c, e) ==
   IF e.id \in DOMAIN c.ents THEN Bad("Schedule returned an entry id that another entry already has")
   ELSE
   [c EXCEPT !.ents = (e.id :> NewEntry(e.p, e.ph, IF c.run = "yes" THEN NextAct(e.p, e.ph, c.now) ELSE 0)) @@ c.ents,
-            !.op = "sched", !.fresh = IF c.run = "yes" THEN FALSE ELSE c.fresh]
-CSchedRet(c, e) == [c EXCEPT !.ents[e.id].st = "live", !.op = "none"]
+            !.ops = c.ops + 1, !.fresh = IF c.run = "yes" THEN FALSE ELSE c.fresh]
+CSchedRet(c, e) == [c EXCEPT !.ents[e.id].st = "live", !.ops = c.ops - 1]
 
 CRemoveCall(c, e) ==
-  IF e.id \notin DOMAIN c.ents THEN [c EXCEPT !.op = "remove"]
+  IF e.id \notin DOMAIN c.ents THEN [c EXCEPT !.ops = c.ops + 1]
   ELSE [c EXCEPT !.ents[e.id].st = IF c.ents[e.id].st = "removed" THEN "removed" ELSE "removing",
-                 !.op = "remove", !.fresh = IF c.run = "yes" THEN FALSE ELSE c.fresh]
+                 !.ops = c.ops + 1, !.fresh = IF c.run = "yes" THEN FALSE ELSE c.fresh]
 (* a start that was still owed when Remove returned is cancelled for good *)
 CRemoveRet(c, e) ==
-  IF e.id \notin DOMAIN c.ents THEN [c EXCEPT !.op = "none"]
-  ELSE [c EXCEPT !.ents[e.id].st = "removed", !.ents[e.id].owed = 0, !.op = "none"]
+  IF e.id \notin DOMAIN c.ents THEN [c EXCEPT !.ops = c.ops - 1]
+  ELSE [c EXCEPT !.ents[e.id].st = "removed", !.ents[e.id].owed = 0, !.ops = c.ops - 1]
 
 (* Start: every entry's next activation is computed from the current instant *)
 CStart(c) ==
@@ -97,7 +99,7 @@ CStart(c) ==
                                THEN [c.ents[i] EXCEPT !.next = NextAct(c.ents[i].p, c.ents[i].ph, c.now), !.owed = 0]
                                ELSE c.ents[i]]]
 
-CStopCall(c, e) == [c EXCEPT !.run = IF c.run = "yes" THEN "stopping" ELSE c.run, !.op = "stop", !.stopcalls = c.stopcalls + 1]
+CStopCall(c, e) == [c EXCEPT !.run = IF c.run = "yes" THEN "stopping" ELSE c.run, !.ops = c.ops + 1, !.stopcalls = c.stopcalls + 1]
 
 (* Run() is Start() on the caller's goroutine: it starts the scheduler and returns when a later Stop ended it; *)
 (* on a Cron that is already running it starts nothing and returns at once.                                    *)
@@ -110,7 +112,7 @@ CRunRet(c, e) ==
   ELSE [c EXCEPT !.runs[e.r].ret = TRUE]
 (* what was owed and not decided before Stop returned is never started: the entry keeps the pair it had *)
 CStopRet(c, e) ==
-  [c EXCEPT !.run = "no", !.op = "none", !.stops = c.stops + 1,
+  [c EXCEPT !.run = "no", !.ops = c.ops - 1, !.stops = c.stops + 1,
             !.ents = [i \in DOMAIN c.ents |->
                         IF c.ents[i].owed > 0
                           THEN [c.ents[i] EXCEPT !.owed = 0, !.next = c.ents[i].onext, !.prev = c.ents[i].oprev]
@@ -125,7 +127,7 @@ CStopCtxDone(c, e) ==
 (* (one per wake-up, however many activations were jumped over), then waits for Next(now).        *)
 CAdv(c, e) ==
   LET due(x) == c.run = "yes" /\ x.st \in {"live", "removing"} /\ x.next # 0 /\ x.next <= e.now /\ x.owed = 0
-  IN [c EXCEPT !.now = e.now, !.fresh = (c.op = "none"),
+  IN [c EXCEPT !.now = e.now, !.fresh = (c.ops = 0),
                !.ents = [i \in DOMAIN c.ents |->
                            IF due(c.ents[i])
                              THEN [c.ents[i] EXCEPT !.owed = 1, !.onext = c.ents[i].next, !.oprev = c.ents[i].prev,
@@ -169,7 +171,7 @@ CJobSkip(c, e) ==
 (* Entries: each live entry once, with the pair in use.  While a start is owed and undecided the *)
 (* snapshot may have been taken on either side of the wake-up.                                   *)
 CEntriesCall(c) ==
-  [c EXCEPT !.op = "entries",
+  [c EXCEPT !.ops = c.ops + 1,
             !.snap = [i \in Live(c) |-> {<<c.ents[i].next, c.ents[i].prev>>} \cup
                                         (IF c.ents[i].owed > 0 THEN {<<c.ents[i].onext, c.ents[i].oprev>>} ELSE {})]]
 CEntriesRet(c, e) ==
@@ -183,10 +185,10 @@ CEntriesRet(c, e) ==
               ELSE Bad("Entries reported a previous activation other than the one actually used")
      ELSE IF c.run # "yes" /\ \E k \in 1..Len(L) : L[k][3] \notin {x[2] : x \in c.snap[L[k][1]]}
        THEN Bad("Entries reported a previous activation other than the one actually used")
-     ELSE [c EXCEPT !.op = "none", !.snap = << >>]
+     ELSE [c EXCEPT !.ops = c.ops - 1, !.snap = << >>]
 
 CQuiescent(c) ==
-  IF c.op # "none" THEN c
+  IF c.ops > 0 THEN c
   ELSE IF \E r \in DOMAIN c.runs : c.runs[r].noop /\ ~c.runs[r].ret
     THEN Bad("Run on a Cron that was already running did not return at once")
   ELSE IF \E j \in 1..Len(c.jobs) : /\ c.jobs[j].st = "decided"
